@@ -113,18 +113,28 @@ theorem entered_Entered (o : Opts) (s : St) : Entered o (entered o s) := ⟨rfl,
 theorem Preserves.entered {o : Opts} {s s' : St} (h : Entered o s) (hp : Preserves s s') : Entered o s' :=
   ⟨hp.counter.trans h.1, hp.session.trans h.2⟩
 
-/-- the outermost `__exit__` after a body that respected `Preserves`: everything about the result -/
-theorem exit_top (env : Env) (o : Opts) (exc : Option Exc) (s1 b : St) (he : Entered o s1) (hs : s1.pending = [])
-    (hp : Preserves s1 b) :
+/-- the outermost `__exit__`: everything about the result -/
+theorem exit_top' (env : Env) (o : Opts) (exc : Option Exc) (b : St) (he : Entered o b) :
+    Clean (exit env o exc b).1 ∧
+    (exit env o exc b).1.committed =
+      b.committed ++ (if wantsCommit o exc && commitOK env b.ncommit b.pending then b.pending else []) ∧
+    (exit env o exc b).1.trace = b.trace ∧
+    (exit env o exc b).2 = corErr env o exc b.ncommit b.pending := by
+  rw [exit_entered env o exc b he]
+  have h := cor_spec env o exc { b with counter := 0 }
+  rw [h.1, h.2]
+  simp [Clean]
+
+/-- the outermost `__exit__` after a body that respected `Preserves` -/
+theorem exit_top (env : Env) (o : Opts) (exc : Option Exc) (s1 b : St) (he : Entered o s1) (hp : Preserves s1 b) :
     Clean (exit env o exc b).1 ∧
     (exit env o exc b).1.committed =
       s1.committed ++ (if wantsCommit o exc && commitOK env s1.ncommit b.pending then b.pending else []) ∧
     (exit env o exc b).1.trace = b.trace ∧
     (exit env o exc b).2 = corErr env o exc s1.ncommit b.pending := by
-  rw [exit_entered env o exc b (hp.entered he)]
-  have h := cor_spec env o exc { b with counter := 0 }
-  rw [h.1, h.2]
-  simp [Clean, hp.committed, hp.ncommit]
+  have h := exit_top' env o exc b (hp.entered he)
+  rw [hp.committed, hp.ncommit] at h
+  exact h
 
 theorem cm_top (env : Env) (o : Opts) (run : St → St × Outcome) (s : St) (hc : Clean s) (hr : InnerOK run)
     (h0 : o.retry = 0) :
@@ -138,7 +148,7 @@ theorem cm_top (env : Env) (o : Opts) (run : St → St × Outcome) (s : St) (hc 
                            | none => b.2) := by
   intro b
   have hp : Preserves (entered o s) b.1 := hr (entered o s) (by simp [entered]) (by simp [entered])
-  have hx := exit_top env o b.2.exc? (entered o s) b.1 (entered_Entered o s) (by simpa [entered] using hc.2.2) hp
+  have hx := exit_top env o b.2.exc? (entered o s) b.1 (entered_Entered o s) hp
   have hcm : cm env o run s = ((exit env o b.2.exc? b.1).1,
       match (exit env o b.2.exc? b.1).2 with | some e' => .raise e' | none => b.2) := by
     simp only [cm, h0, enter_clean o s hc]
@@ -147,5 +157,114 @@ theorem cm_top (env : Env) (o : Opts) (run : St → St × Outcome) (s : St) (hc 
   refine ⟨hx.1, ?_, hx.2.2.1, ?_⟩
   · simpa [entered] using hx.2.1
   · simp only [hx.2.2.2]; rfl
+
+/-- does this execution of the decorated function's body end with its writes committed? -/
+def attCommits (env : Env) (o : Opts) (a : Att) : Bool :=
+  commitOK env a.start.ncommit a.writes &&
+  match a.bodyOut with
+  | .ret => true
+  | .raise e => (doRetry env o e != .yes) && (o.allowed e == .yes)
+
+/-- what one iteration of the retry loop produces, as a function of what the `except:` clause saw -/
+def attOutSpec (env : Env) (o : Opts) (a : Att) : AttOut :=
+  match a.exc with
+  | none => .done .ret
+  | some e =>
+    match doRetry env o e with
+    | .yes => (match o.allowed e with | .raises e' => .done (.raise e') | _ => .again e)
+    | .no => .done (.raise ((corErr env o (some e) a.start.ncommit (if a.bodyOut = .ret then [] else a.writes)).getD e))
+    | .raises e' => .done (.raise ((corErr env o (some e) a.start.ncommit (if a.bodyOut = .ret then [] else a.writes)).getD e'))
+
+theorem attempt_spec (env : Env) (o : Opts) (run : Nat → St → St × Outcome) (i : Nat) (s1 : St)
+    (he : Entered o s1) (hr : InnerOK (run i)) (bs : St) (bo : Outcome) (hb : run i s1 = (bs, bo)) :
+    (attempt env o run i s1).2.2 = ⟨s1, bs.pending, bo, match bo with
+                                    | .ret => commitErr env s1.ncommit bs.pending
+                                    | .raise e => some e⟩ ∧
+    Clean (attempt env o run i s1).1 ∧ (attempt env o run i s1).1.trace = bs.trace ∧
+    (attempt env o run i s1).1.committed =
+      s1.committed ++ (if attCommits env o (attempt env o run i s1).2.2 then bs.pending else []) ∧
+    (attempt env o run i s1).2.1 = attOutSpec env o (attempt env o run i s1).2.2 := by
+  have hp : Preserves s1 bs := by
+    have := hr s1 (by rw [he.1]; decide) (by rw [he.2]; rfl)
+    rwa [hb] at this
+  have heb : Entered o bs := hp.entered he
+  have hc := commit_spec env bs
+  rw [hp.ncommit] at hc
+  cases bo with
+  | ret =>
+    cases hce : commitErr env s1.ncommit bs.pending with
+    | none =>
+      have hok : commitOK env s1.ncommit bs.pending = true := (commitOK_iff _ _ _).2 hce
+      have hx := exit_top' env o none (commit env bs).1 (by rw [hc.1]; exact heb)
+      simp only [attempt, hb, hc.2, hce]
+      refine ⟨trivial, hx.1, ?_, ?_, ?_⟩
+      · rw [hx.2.2.1, hc.1]
+      · rw [hx.2.1, hc.1]
+        simp [attCommits, hp.committed, commitOK]
+      · rw [hx.2.2.2, hc.1]
+        simp [attOutSpec, corErr, commitErr]
+    | some e =>
+      have hnok : commitOK env s1.ncommit bs.pending = false := by
+        cases h : commitOK env s1.ncommit bs.pending with
+        | false => rfl
+        | true => rw [(commitOK_iff _ _ _).1 h] at hce; cases hce
+      have hec : Entered o (commit env bs).1 := by rw [hc.1]; exact heb
+      have hpc : (commit env bs).1.pending = [] := by rw [hc.1]
+      have hcc : (commit env bs).1.committed = s1.committed := by rw [hc.1]; simp [hnok, hp.committed]
+      have hct : (commit env bs).1.trace = bs.trace := by rw [hc.1]
+      have hx := exit_top' env o (some e) (commit env bs).1 hec
+      rw [hpc, hcc, hct] at hx
+      have hrb : rollback (commit env bs).1 = (commit env bs).1 := by
+        simp only [rollback]; rw [← hpc]
+      simp only [attempt, hb, hc.2, hce]
+      cases hd : doRetry env o e with
+      | yes =>
+        simp only [hrb]
+        refine ⟨trivial, ?_, ?_, ?_, ?_⟩
+        · exact hx.1
+        · exact hx.2.2.1
+        · have : (exit env o (some e) (commit env bs).1).1.committed = s1.committed := by simpa using hx.2.1
+          simp [this, attCommits, hnok]
+        · rw [hx.2.2.2]
+          simp only [attOutSpec, hd, corErr, commitErr]
+          cases o.allowed e <;> simp
+      | no =>
+        dsimp only
+        refine ⟨rfl, hx.1, hx.2.2.1, ?_, ?_⟩
+        · have : (exit env o (some e) (commit env bs).1).1.committed = s1.committed := by simpa using hx.2.1
+          simp [this, attCommits, hnok]
+        · rw [hx.2.2.2]; simp [attOutSpec, hd, corErr, commitErr]
+      | raises e' =>
+        dsimp only
+        refine ⟨rfl, hx.1, hx.2.2.1, ?_, ?_⟩
+        · have : (exit env o (some e) (commit env bs).1).1.committed = s1.committed := by simpa using hx.2.1
+          simp [this, attCommits, hnok]
+        · rw [hx.2.2.2]; simp [attOutSpec, hd, corErr, commitErr]
+  | raise e =>
+    simp only [attempt, hb]
+    cases hd : doRetry env o e with
+    | yes =>
+      have her : Entered o (rollback bs) := heb
+      have hx := exit_top' env o (some e) (rollback bs) her
+      have hx2 : (exit env o (some e) (rollback bs)).1.committed = s1.committed := by
+        rw [hx.2.1]; simp [rollback, hp.committed]
+      dsimp only
+      refine ⟨rfl, hx.1, hx.2.2.1, ?_, ?_⟩
+      · simp [hx2, attCommits, hd]
+      · rw [hx.2.2.2]
+        simp only [attOutSpec, hd, corErr, commitErr, rollback]
+        cases o.allowed e <;> simp
+    | no =>
+      have hx := exit_top env o (some e) s1 bs he hp
+      dsimp only
+      refine ⟨rfl, hx.1, hx.2.2.1, ?_, ?_⟩
+      · rw [hx.2.1]; simp [attCommits, hd, wantsCommit, Bool.and_comm]
+      · rw [hx.2.2.2]; simp [attOutSpec, hd]
+    | raises e' =>
+      have hx := exit_top env o (some e) s1 bs he hp
+      dsimp only
+      refine ⟨rfl, hx.1, hx.2.2.1, ?_, ?_⟩
+      · rw [hx.2.1]; simp [attCommits, hd, wantsCommit, Bool.and_comm]
+      · rw [hx.2.2.2]; simp [attOutSpec, hd]
 
 end PonyVerif.Model.DbSession
